@@ -474,8 +474,10 @@ func c03SizeSweeps(tier string) []*core.Scenario {
 
 func init() {
 	register(&Property{
-		ID:        "C03",
-		Scenarios: func(tier string) []*core.Scenario { return append(c03Scenarios(tier), c03SizeSweeps(tier)...) },
+		ID: "C03",
+		Scenarios: func(tier string) []*core.Scenario {
+			return append(append(c03Scenarios(tier), c03Sections()), c03SizeSweeps(tier)...)
+		},
 		Pre: func(r *core.Run, tier string) {
 			x86refSelfCheck(r, tier)
 			c03Drift = knownDriftTable(r.Findings)
